@@ -706,3 +706,132 @@ def refs_only_own_data(s):
     if isinstance(s, list):
         return all(refs_only_own_data(x) for x in s)
     return True
+
+
+# ---- REMOVEEMPTY ----------------------------------------------------------------------------
+
+def check_removeempty(facts):
+    """optimizer::remove_empties may delete a node only when the node can match nothing but the empty string and carries no
+    capture: per ir::Node variant, the conditions under which its arm answers PassAction::Remove are summarised from HIR
+    (if / && / || / !) into a disjunction of conjunctions, and every conjunction must contain the variant's emptiness facts:
+    Alt — both arms `is_empty()`; Loop — the body `is_empty()`, or `max == Some(0)` with no enclosed groups; ByteSequence —
+    `is_empty()`; LookaroundAssertion — not negated and contents `is_empty()`; Cat — nothing left after `retain(!is_empty)`;
+    every other variant never. (Deleting `(?:|a)` because its first arm is empty drops the second arm: `/(?:|a)b/` on "ab".)"""
+    r = RuleResult("REMOVEEMPTY", " ".join(check_removeempty.__doc__.split()))
+    fn = "optimizer::remove_empties"
+    s = summarise_function(facts, fn, r)
+    if s is None:
+        if not r.errors and not r.findings:
+            r.error("cannot summarise %s" % fn)
+        return r
+    sums, m = s
+    variants = [v["name"] for v in facts.adts["ir::Node"]["variants"]]
+
+    def is_remove(x):
+        return isinstance(x, (list, tuple)) and x and x[0] == "ctor" and str(x[1]).endswith("PassAction::Remove")
+
+    def conj(c, pol=True):
+        """DNF of a condition: list of frozensets of (atom-json, polarity)."""
+        if isinstance(c, (list, tuple)) and c and c[0] == "and":
+            if pol:
+                out = [frozenset()]
+                for sub in c[1:]:
+                    out = [a | b for a in out for b in conj(sub, True)]
+                return out
+            return [d for sub in c[1:] for d in conj(sub, False)]
+        if isinstance(c, (list, tuple)) and c and c[0] == "or":
+            if pol:
+                return [d for sub in c[1:] for d in conj(sub, True)]
+            out = [frozenset()]
+            for sub in c[1:]:
+                out = [a | b for a in out for b in conj(sub, False)]
+            return out
+        if isinstance(c, (list, tuple)) and c and c[0] == "not":
+            return conj(c[1], not pol)
+        return [frozenset([(json.dumps(c), pol)])]
+
+    def remove_paths(x, ctx):
+        """conjunctions (frozensets) under which summary x yields Remove; None if a shape is not understood"""
+        if is_remove(x):
+            return [ctx]
+        if isinstance(x, (list, tuple)) and x and x[0] == "ctor":
+            return []
+        if isinstance(x, (list, tuple)) and x and x[0] == "if":
+            out = []
+            for d in conj(x[1], True):
+                rp = remove_paths(x[2], ctx | d)
+                if rp is None:
+                    return None
+                out += rp
+            for d in conj(x[1], False):
+                rp = remove_paths(x[3], ctx | d) if len(x) > 3 and x[3] is not None else []
+                if rp is None:
+                    return None
+                out += rp
+            return out
+        if isinstance(x, (list, tuple)) and x and x[0] == "match":
+            out = []
+            for arm in x[2]:
+                rp = remove_paths(arm[2], ctx | frozenset([("match " + json.dumps(x[1]) + " = " + json.dumps(arm[0]), True)]))
+                if rp is None:
+                    return None
+                out += rp
+            return out
+        if "PassAction::Remove" in json.dumps(x):
+            return None
+        return []
+    need = {
+        "Alt": [{'["is_empty", "0"]', '["is_empty", "1"]'}],
+        "ByteSequence": [{'["is_empty", "0"]'}],
+        "LookaroundAssertion": [{'["is_empty", "contents"]', '!["field", "negate"]'}],
+        "Loop": [{'["is_empty", "loopee"]'}, {"max == Some(0)", "enclosed_groups.start == enclosed_groups.end"}],
+    }
+    n = 0
+    for v in variants:
+        for one in sums.get(v) or []:
+            n += 1
+            key = "%s variant=%s" % (fn, v)
+            rp = remove_paths(one["summary"], frozenset())
+            if rp is None:
+                r.fail(key, "cannot tell under which conditions the arm removes the node: %s" % json.dumps(one["summary"])[:200], facts.loc(fn, one.get("line")))
+                continue
+            if not rp:
+                r.ok(key, "never removed")
+                continue
+            if v == "Cat":
+                ok = all(any("len" in a and '["lit", 0]' in a for a, p in d) for d in rp)
+                if ok:
+                    r.ok(key, "removed only when no child is left")
+                else:
+                    r.fail(key, "Cat is removed on a path that does not test `nodes.len()` against 0: %s" % [sorted(d) for d in rp][:2], facts.loc(fn, one.get("line")))
+                continue
+            alts = need.get(v)
+            if not alts:
+                r.fail(key, "Node::%s can be removed (%s) although it can match a non-empty string or carries a capture" % (v, [sorted(d) for d in rp][:1]),
+                       facts.loc(fn, one.get("line")))
+                continue
+
+            def norm_atoms(d):
+                out = set()
+                for a, p in d:
+                    if a == '["is_empty", "loopee"]' or a.startswith('["is_empty"'):
+                        out.add(a if p else "!" + a)
+                    elif a == '["field", "negate"]':
+                        out.add(("" if p else "!") + a)
+                    elif '"max"' in a and '["some", ["lit", 0]]' in a and '"=="' in a and p:
+                        out.add("max == Some(0)")
+                    elif '"enclosed_groups"' in a and '"start"' in a and '"end"' in a and '"=="' in a and p:
+                        out.add("enclosed_groups.start == enclosed_groups.end")
+                    else:
+                        out.add(("" if p else "!") + a)
+                return out
+            bad = [d for d in rp if not any(alt <= norm_atoms(d) for alt in alts)]
+            if bad:
+                r.fail(key, "Node::%s is removed under %s, which does not establish %s: the node may still match something (or hold a group), "
+                            "and the alternative / iteration it stood for is lost" % (v, sorted(norm_atoms(bad[0])), " or ".join(str(sorted(a)) for a in alts)),
+                       facts.loc(fn, one.get("line")))
+            else:
+                r.ok(key, "removed only when %s" % " or ".join(str(sorted(a)) for a in alts))
+                r.sample({"variant": v, "remove_conditions": [sorted(norm_atoms(d)) for d in rp]})
+    r.floor("arms", n, 15)
+    return r
